@@ -243,15 +243,23 @@ def suite_area(ctx):
 def _pair(rng, relation):
     place, centre = rng.choice(PLACES)
     n1, n2 = rng.randint(3, 8), rng.randint(3, 8)
-    s1 = rng.choice([0.05, 0.3, 0.8])
+    s1 = rng.choice([0.05, 0.3, 0.8, 1.25])            # (1.25 rad: two such polygons can have a union larger than a hemisphere)
+    if s1 > 1.0:
+        n1, n2 = rng.randint(8, 12), rng.randint(8, 12)
     c1 = ll2v(*centre)
     A = make_polygon(rng, "convex", n1, s1, centre)
     if relation == "overlap":
-        s2 = s1 * rng.uniform(0.6, 1.4)
-        shift = rng.uniform(0.4, 1.1) * max(s1, s2)
+        s2 = min(1.3, s1 * rng.uniform(0.6, 1.4))
+        shift = rng.uniform(0.4, 1.3) * max(s1, s2)
+    elif relation == "far":
+        # disjoint and far apart (the other side of the globe)
+        s1 = rng.choice([0.05, 0.3])
+        A = make_polygon(rng, "convex", n1, s1, centre)
+        s2 = s1 * rng.uniform(0.5, 1.5)
+        shift = rng.uniform(2.0, 3.1)
     elif relation == "disjoint":
         s2 = s1 * rng.uniform(0.5, 1.2)
-        shift = (s1 + s2) * rng.uniform(1.3, 2.0)
+        shift = min(3.0, (s1 + s2) * rng.uniform(1.3, 2.0))
     else:   # nested: B well inside A
         s2 = s1 * rng.uniform(0.15, 0.4)
         shift = s1 * rng.uniform(0.0, 0.2)
@@ -297,7 +305,7 @@ def suite_setops(ctx):
     attempts = 0
     while done < n_cases and attempts < n_cases * 20:
         attempts += 1
-        relation = rng.choice(["overlap", "overlap", "overlap", "disjoint", "nested", "shallow"])
+        relation = rng.choice(["overlap", "overlap", "overlap", "disjoint", "nested", "shallow", "far"])
         place, VA, VB = _shallow_pair(rng) if relation == "shallow" else _pair(rng, relation)
         if not (is_convex_cw(VA) and is_convex_cw(VB)):
             continue
@@ -373,6 +381,47 @@ def suite_setops(ctx):
                      tags={**tags0, "cause": "law"}, size=len(VA) + len(VB))
 
 
+def suite_far_disjoint(ctx):
+    """many pairs of small polygons far apart (up to the antipodes): no intersection and, by the library's convention, no union"""
+    rng = ctx.rng
+    n_pairs = 200 if ctx.quick else 2000
+    for _ in range(n_pairs):
+        place, VA, VB = _pair(rng, "far")
+        if rng.random() < 0.6:
+            # the containment test of the library shoots a ray along the great circle of a polygon's FIRST edge: put the other polygon on it
+            nrm = np.cross(VA[0], VA[1])
+            nrm /= np.linalg.norm(nrm)
+            t = np.cross(nrm, VA[0])
+            th = rng.uniform(2.0, 3.1) * rng.choice([-1, 1])
+            cB = VA[0] * math.cos(th) + t * math.sin(th)
+            llB = v2ll(cB)
+            VB = make_polygon(rng, "convex", rng.randint(3, 8), rng.choice([0.05, 0.15, 0.3]), (float(llB[0]), float(llB[1])))
+            VB = np.roll(VB, rng.randrange(len(VB)), axis=0)
+            if rng.random() < 0.5:
+                VA, VB = VB, VA
+            ctx.count("setops.far_disjoint.on_first_edge_circle")
+        if not (is_convex_cw(VA) and is_convex_cw(VB)):
+            continue
+        if clip_area(VA, VB) != 0.0 or any(inside_convex(a, VB) for a in VA) or any(inside_convex(b, VA) for b in VB) or min(min_boundary_distance(VA, VB), min_boundary_distance(VB, VA)) < 0.5:
+            continue
+        inp = {"place": place, "relation": "far-disjoint", "A_lonlat_rad": v2ll(VA).tolist(), "B_lonlat_rad": v2ll(VB).tolist()}
+        ctx.case("far-disjoint", (v2ll(VA).tobytes(), v2ll(VB).tobytes()), nontrivial=True)
+        ctx.count("setops.far_disjoint")
+        try:
+            with warnings.catch_warnings(), np.errstate(all="ignore"):
+                warnings.simplefilter("ignore")
+                a, b = _sph(VA), _sph(VB)
+                res = {"A&B": a.intersection(b), "B&A": b.intersection(a), "A|B": a.union(b), "B|A": b.union(a)}
+        except Exception as e:  # noqa
+            ctx.fail("spherical.SphPolygon._bool_oper", f"set operation on two far-apart polygons raised {type(e).__name__}: {e}", inp, None, tags={"relation": "far-disjoint", "cause": "exception"}, size=len(VA) + len(VB))
+            continue
+        got = {k: (None if v is None else float(v.area())) for k, v in res.items()}
+        if any(v is not None for v in got.values()):
+            ctx.fail("spherical.SphPolygon.intersection", f"polygons far apart (nearest boundary points more than 0.5 rad apart) at {place}: " +
+                     ", ".join(f"{k} has area {v:.6g}" for k, v in got.items() if v is not None) + " instead of no result", inp, got,
+                     tags={"relation": "far-disjoint", "cause": "law"}, size=len(VA) + len(VB))
+
+
 def suite_dispatch(ctx):
     """the no-crossing branch of the real _bool_oper (edges that cross nothing, stubbed containment tests) vs the model's decision table"""
     from pyresample.spherical import SphPolygon
@@ -408,7 +457,7 @@ def suite_dispatch(ctx):
 
 def run(ctx):
     import traceback
-    for suite in (suite_area, suite_setops, suite_dispatch):
+    for suite in (suite_area, suite_setops, suite_far_disjoint, suite_dispatch):
         try:
             suite(ctx)
         except Exception as e:  # noqa
